@@ -293,7 +293,7 @@ func TestC18(t *testing.T) {
 		tag, _ := hex.DecodeString(kat.tag)
 		pt, _ := hex.DecodeString(kat.pt)
 		blob := append(append(append([]byte{}, ct...), tag...), make([]byte, 12)...)
-		out, err := crypto.Decrypt(blob, key)
+		out, err := crypto.Decrypt(append([]byte(nil), blob...), key) // (the SDK gets its own copy: the reference opens the original)
 		r.Eval(1)
 		if err != nil || !bytes.Equal(out, pt) {
 			r.Violation("c18-aead-known-answer", fmt.Sprintf("AES-256-GCM known answer laid out as ciphertext|tag|nonce does not open through the SDK's AEAD: %v", err), nil)
